@@ -660,6 +660,9 @@ func (s *Subscription) processCollectionEvent(event *rescache.ResourceEvent) {
 		s.c.Send(rpc.NewEvent(s.rid, event.Event, event.Payload))
 
 	case "delete":
+		if verifhook.Enabled && len(s.refs) > 0 {
+			verifhook.Site("delete.refs", s.c.CID(), s.rid)
+		}
 		s.state = stateDeleted
 		s.c.Send(rpc.NewEvent(s.rid, event.Event, event.Payload))
 		s.unsubscribeDirect(reserr.ErrDeleted)
@@ -754,6 +757,9 @@ func (s *Subscription) processModelEvent(event *rescache.ResourceEvent) {
 			})
 		}
 	case "delete":
+		if verifhook.Enabled && len(s.refs) > 0 {
+			verifhook.Site("delete.refs", s.c.CID(), s.rid)
+		}
 		s.state = stateDeleted
 		s.c.Send(rpc.NewEvent(s.rid, event.Event, event.Payload))
 		s.unsubscribeDirect(reserr.ErrDeleted)
